@@ -46,6 +46,7 @@ def gen_params(rng, kind, extra_decimals=False):
     p = {'kind': kind,
          'a1': round(rng.uniform(0.5, 0.9), nd), 'a2': round(rng.uniform(0.1, 0.5), nd),
          'th': round(rng.uniform(0.05, 0.4), nd), 'T': rng.choice([4, 6, 9])}
+    p['book_exo'] = rng.random() < 0.3     # start from the book's exogenous series, then override them
     p['G'] = [round(rng.uniform(5, 40), 2) for _ in range(p['T'] + 2)]
     if rng.random() < 0.5:
         p['G'] = [p['G'][0]] * (p['T'] + 2)
@@ -66,7 +67,7 @@ def build_book(p):
     from sfc_models.gl_book.chapter3 import SIM, SIMEX1
     from sfc_models.gl_book.chapter4 import PC
     cls = {'SIM': SIM, 'SIMEX1': SIMEX1, 'PC': PC}[p['kind']]
-    b = cls('C', use_book_exogenous=False)
+    b = cls('C', use_book_exogenous=bool(p.get('book_exo')))
     mod = b.build_model()
     c = mod['C']
     hh, tf = c['HH'], c['TF']
@@ -189,7 +190,7 @@ def oracle(p):
 def iterative_oracle(rng):
     from sfc_models.gl_book.model_SIM_iterative import ModelSIMiterative
     fails = []
-    a1, a2, th = round(rng.uniform(0.3, 0.85), 3), round(rng.uniform(0.1, 0.5), 3), round(rng.uniform(0.05, 0.4), 3)
+    a1, a2, th = round(rng.uniform(0.3, 0.97), 3), round(rng.uniform(0.1, 0.5), 3), round(rng.uniform(0.02, 0.4), 3)
     H0 = round(rng.uniform(0, 100), 2)
     Gs = [round(rng.uniform(5, 40), 2) for _ in range(8)]
     obj = ModelSIMiterative()
